@@ -11,7 +11,7 @@ theorem repElems_getElem (st : List NodeM) (j : Nat) (x : NodeM) (hr : repElems 
 
 theorem repPairs_getElem (st : List PairM) (j : Nat) (p : PairM) (hr : repPairs st = true)
     (h : st[j]? = some p) (hl : pairLive p = true) : p.2.2.repOk = true :=
-  ((repPairs_iff st).mp hr p (List.mem_of_getElem? h)).1 hl
+  (((repPairs_iff st).mp hr p (List.mem_of_getElem? h)).1 hl).1
 
 theorem skipIndex_arr (l : Nat) (st : List NodeM) (i : Nat) :
     (NodeM.arr l st).skipIndex i =
@@ -51,6 +51,7 @@ theorem skipIndex_spec (n : NodeM) (index : Nat) (hr : n.repOk = true) (hn : n.i
   | obj l st ix =>
     have hr0 := hr
     simp only [NodeM.repOk, Bool.and_eq_true, decide_eq_true_eq] at hr
+    replace hr := hr.1
     by_cases hi : l > index
     · rw [skipIndex_obj, if_pos hi]
       obtain ⟨p, x, h1, h2, h3, h4, h5⟩ := slotAt_spec pairLive l st index hr.2 hi
@@ -134,51 +135,39 @@ theorem findKey_append_some {β : Type} (k : Key) (b : List (Key × β)) :
         simp [hf] at h; subst h
         simp [findKey, hk, findKey_append_some k b r j hf]
 
-/-- `skipKey` on an object without hash index: the slot found holds the first pair with that key -/
+/-- `skipKey`: the slot found holds the first live pair with that key, hash index or not -/
 theorem skipKey_spec (n : NodeM) (key : Key) (hr : n.repOk = true) (hn : n.isRaw = false)
-    (hk : n.kind = .obj) (hs : n.keySafe key = true) :
+    (hk : n.kind = .obj) :
     (n.skipKey key).1.abs = n.abs ∧ (n.skipKey key).1.repOk = true ∧ (n.skipKey key).1.isRaw = false ∧
     (match (n.skipKey key).2 with
      | .at j => ∃ i kvs, FoundAt (n.skipKey key).1 j i ∧ n.abs = .obj kvs ∧ findKey key kvs = some i
-     | .no => (∃ kvs, n.abs = .obj kvs ∧ findKey key kvs = none) ∧ ∃ l st ix, (n.skipKey key).1 = .obj l st ix
-     | .panic => False) := by
+     | .no => (∃ kvs, n.abs = .obj kvs ∧ findKey key kvs = none) ∧ ∃ l st ix, (n.skipKey key).1 = .obj l st ix) := by
   cases n with
   | obj l st ix =>
     have hr0 := hr
     simp only [NodeM.repOk, Bool.and_eq_true, decide_eq_true_eq] at hr
-    simp only [NodeM.keySafe, Bool.and_eq_true, Option.isNone_iff_eq_none, Bool.or_eq_true, Bool.not_eq_true',
-      beq_iff_eq] at hs
-    obtain ⟨hix, hsafe⟩ := hs
-    subst hix
+    obtain ⟨⟨hrp, hlen⟩, hix⟩ := hr
     rw [skipKey_obj]
+    have hspec := firstLiveKey_findKey key st
     by_cases hl : l > 0
     · rw [if_pos hl]
       refine ⟨rfl, hr0, rfl, ?_⟩
-      have hdead : ∀ q ∈ st, pairLive q = false → q.2.1 ≠ key := by
-        intro q hq hd
-        rcases hsafe with hne | heq
-        · have := ((repPairs_iff st).mp hr.1 q hq).2 hd
-          rw [this]; intro h; rw [← h] at hne; simp at hne
-        · have := countLive_eq_length pairLive st (by omega) q hq
-          rw [this] at hd; simp at hd
-      have hspec := linearGet_spec key st hdead
-      unfold pairsGet
-      cases hlg : linearGet key st with
+      rw [pairsGet_spec st ix key hrp hix]
+      cases hlg : firstLiveKey key st with
       | none =>
         simp only [hlg] at hspec
         exact ⟨⟨_, rfl, hspec⟩, _, _, _, rfl⟩
       | some p =>
         simp only [hlg] at hspec
         obtain ⟨q, h1, h2, h3, h4⟩ := hspec
-        refine ⟨_, _, ⟨q.2.2, by simp [NodeM.childAt, h1], h2, repPairs_getElem st p q hr.1 h1 h2, ?_, rfl⟩, rfl, h4⟩
+        refine ⟨_, _, ⟨q.2.2, by simp [NodeM.childAt, h1], h2, repPairs_getElem st p q hrp h1 h2, ?_, rfl⟩, rfl, h4⟩
         have := absPairs_getElem st p q h1 h2
         simp [NodeM.abs, Tree.kidAt, NodeM.logIdx, this]
     · rw [if_neg hl]
       refine ⟨rfl, hr0, rfl, ⟨_, rfl, ?_⟩, _, _, _, rfl⟩
       have : absPairs st = [] := by
         have : (absPairs st).length = 0 := by
-          have h2 := hr.2
-          rw [absPairs_eq, List.length_map]; unfold countLive at h2; omega
+          rw [absPairs_eq, List.length_map]; unfold countLive at hlen; omega
         exact List.eq_nil_of_length_eq_zero this
       simp [this, findKey]
   | objLazy pre rest =>
@@ -186,9 +175,8 @@ theorem skipKey_spec (n : NodeM) (key : Key) (hr : n.repOk = true) (hn : n.isRaw
     simp only [NodeM.repOk, Bool.and_eq_true] at hr
     obtain ⟨⟨hrp, hl⟩, _⟩ := hr
     have hall := (allLivePairs_iff pre).mp hl
-    have hdead : ∀ q ∈ pre, pairLive q = false → q.2.1 ≠ key := by
-      intro q hq hd; rw [hall q hq] at hd; simp at hd
-    have hspec := linearGet_spec key pre hdead
+    have hspec := firstLiveKey_findKey key pre
+    rw [← linearGet_eq key pre hrp] at hspec
     rw [skipKey_objLazy]
     have hcases : (if pre.length > 0 then linearGet key pre else none) = linearGet key pre := by
       by_cases hp : pre.length > 0
